@@ -200,6 +200,14 @@ func newKit3() *kit {
 		},
 		optimize: func(ops []solidG) solidG { return s3{model3d.JoinedSolid(native3(ops)).Optimize()} },
 		mux:      func(ops []solidG) muxG { return &mux3{model3d.NewSolidMux(native3(ops))} },
+		staged: func(ops []solidG, cuts []int) (solidG, solidG) {
+			all := native3(ops)
+			outer := model3d.JoinedSolid{}
+			for _, cut := range cuts {
+				outer = append(outer, model3d.JoinedSolid(all[:cut]))
+			}
+			return s3{outer}, s3{outer.Optimize()}
+		},
 		stackSolids: func(ops []solidG) solidG {
 			return s3{model3d.StackSolids(native3(ops)...)}
 		},
